@@ -198,6 +198,31 @@ def molCtabLines (lines : List Line) : List Line :=
 def molGetStructure (lines : List Line) : Except Err MolR :=
   if (molCtabLines lines).isEmpty then .error .invalidFile else readCtab (molCtabLines lines)
 
+/-! ### `MOLFile.header` (parsed on first access, cached, edited in place) -/
+
+/-- A `MOLFile`: its lines and the `Header` object handed out by the `header` property, if any. -/
+structure MolFile where
+  lines : List Line
+  cached : Option Header
+  deriving DecidableEq, Repr
+
+/-- `file.header`: parse the first three lines once, then always the same object. -/
+def MolFile.getHeader (f : MolFile) : Except Err (MolFile × Header) :=
+  match f.cached with
+  | some h => .ok (f, h)
+  | none => (Header.deserialize (f.lines.take 3)).map fun h => ({ f with cached := some h }, h)
+
+/-- `file.header.<field> = …`: the cached object is edited in place. -/
+def MolFile.editHeader (f : MolFile) (g : Header → Header) : Except Err MolFile :=
+  f.getHeader.map fun fh => { fh.1 with cached := some (g fh.2) }
+
+/-- What `write()` / `str()` / `copy()` emit (after the `fix:` commit): the header lines are brought
+up to date from the cached object first. -/
+def MolFile.written (f : MolFile) : Except Err (List Line) :=
+  match f.cached with
+  | none => .ok f.lines
+  | some h => h.serialize.map fun hl => hl ++ f.lines.drop 3
+
 /-- `SDFile.deserialize(text)`: every record still text. -/
 def lazyOfRecords (recs : List (Line × List Line)) : LFile := recs.map fun nr => (nr.1, .raw nr.2)
 
